@@ -15,6 +15,13 @@ byte-identical to those of c - i.e. the reachable set of every initial state is 
 leaves c the search continues (all transitions, total depth 3) only to classify the counterexample as
 converges / oscillates / diverges / then-raises; the class is part of the signature.
 
+On the two object edges the successor must also carry the same metadata (__path__ of values loaded from a file of
+their own, __default_config__): the complete result is what is handed to parse_object, and results that differ only
+there compare unequal.  Besides the input channels the space has three axes that make states no text input reaches:
+values given as already typed Python objects built by the Python constructors ("object-native" channel, "native"
+declared defaults); an ambient process environment read by default_env parsers during the first parse AND every
+transition; values that live in a file of their own (enable_path).
+
 One fresh parser is built per input (first parse) and one per initial state (all its transitions); every object
 handed to the library is a private deep copy.  Deviations are attributed to a root cause by differential probes
 (same text with the yaml spelling of non-finite floats; the member type of a Union alone; the defaults-only
@@ -44,7 +51,7 @@ META = {
     "parse_object of the namespace and of its dict form, yaml and json dump->parse_string) are executed on the real "
     "code; the reachable set of each state is computed by search with state hashing and required to be the singleton. "
     "The verdict is exhaustive over the enumerated finite space; nothing is sampled.",
-    "level_note": "Trusted: the canonical form (typed, complete: key order, Path cwd, function identity) used for state "
+    "level_note": "Trusted: the canonical form (typed, complete: key order, Path cwd, function identity, metadata keys) used for state "
     "hashing and equality; dump as a deterministic function of (parser, configuration) (C09 checks history "
     "independence). Bounded by the type grammar depth, the value pools and the parser shapes listed in the evidence.",
     "design_ref": "DESIGN.md §5 C10",
@@ -56,6 +63,8 @@ SIG_JSON_NONFINITE = "json:non-finite-float:not-read-back-by-yaml-mode-parser"
 SIG_DECIMAL = "text:Decimal:serialised-through-float"
 SIG_DEFAULT = "reparse:declared-default-not-normalised-by-first-parse"
 SIG_UNION = "text:Union:value-serialised-by-a-member-type-it-does-not-belong-to"
+SIG_OPTNULL = "text:Optional:text-of-a-non-None-value-is-read-as-None"
+SIG_DEFTEXT = "text:value-whose-text-equals-the-declared-default:returned-unconverted"
 DEPTH = 3
 
 # ---------------------------------------------------------------------------------------------------
@@ -348,9 +357,23 @@ class Env:
         self.status = "ok"
         self.parses = 0
         self._p = None
+        self.ambient = {}
+        if "ambient" in spec:
+            # the process environment of this parser spec: set once, in force for the first parse and for every
+            # transition (run_task restores os.environ afterwards)
+            self.ambient, files = S.ambient_env(spec, S.subst(copy.deepcopy(spec["ambient"]), cwd), cwd)
+            if any("\x00" in v for v in self.ambient.values()):
+                self.status = "ambient-value-not-expressible"
+                return
+            for name, text in files.items():  # the config file the environment names; stays for the life of the spec
+                with open(os.path.join(cwd, name), "w") as fh:
+                    fh.write(text)
+            os.environ.update(self.ambient)
         if self.has_default:
             raw = S.subst(copy.deepcopy(spec["default"]), cwd)
-            if S.is_classlike(spec["type"]):
+            if spec.get("dform") == "native":
+                self.dobj = ("native", raw)
+            elif S.is_classlike(spec["type"]):
                 self.dobj = ("factory", raw)
             else:
                 from mc.util import outcome
@@ -388,7 +411,10 @@ class Env:
         if not self.has_default:
             return S.build_parser(self.spec, None, False)
         how, d = self.dobj
-        d = S.realise_default(copy.deepcopy(d)) if how == "factory" else dcopy(d)
+        if how == "native":
+            d = S.realise(copy.deepcopy(d))
+        else:
+            d = S.realise_default(copy.deepcopy(d)) if how == "factory" else dcopy(d)
         return S.build_parser(self.spec, d, True)
 
 
@@ -428,7 +454,7 @@ def call_input(env, channel, value):
 
 
 def cleanup_input_files():
-    for name in (S.CONF, S.DCF):
+    for name in (S.CONF, S.DCF, S.VAL):
         if os.path.exists(name):
             os.remove(name)
 
@@ -458,6 +484,7 @@ class Node:
         self.key = ckey(self.view)
         self.okey = ckey(self.view, True)
         self.key_nocfg = ckey(_drop_cfg(self.view))
+        self.mkey = ckey(cfg)  # complete form: values AND metadata (__path__, __default_config__) at every level
         self.text_cwd = text_cwd
         self._dumps = {}
 
@@ -518,6 +545,11 @@ def step(env, node, op):
     same_state = (succ.key_nocfg == node.key_nocfg) if textual else (succ.key == node.key)
     if not same_state:
         return {"res": "state-changed", "succ": succ, "text": text}
+    # the object edges hand the complete result (metadata included) to parse_object: "an equal configuration" is
+    # then equal in its metadata too (results that differ only there compare unequal with ==).  A text has no
+    # metadata, so the text edges are not judged on it.
+    if not textual and succ.mkey != node.mkey:
+        return {"res": "meta-changed", "succ": succ, "text": None}
     # byte-identical dumps along the edge
     if textual or succ.okey != node.okey:
         for fmt in env.formats if not textual else [op]:
@@ -535,7 +567,7 @@ def search(env, root):
 
     -> (edges of the root [(op, result)], graph info for classification or {} when the reachable set is {root})"""
     edges = [(op, step(env, root, op)) for op in env.ops]
-    leaving = [(op, r) for op, r in edges if r["res"] in ("state-changed", "dump-changed")]
+    leaving = [(op, r) for op, r in edges if r["res"] in ("state-changed", "dump-changed", "meta-changed")]
     if not leaving:
         return edges, {}
     root_raises = {op for op, r in edges if r["res"] in ("raises", "mutates")}
@@ -552,6 +584,8 @@ def search(env, root):
         k = nkey(r["succ"])
         if r["res"] == "dump-changed" and k == rk:
             k = rk + "\x00dump:" + str(r.get("d1"))[:2000]
+        if r["res"] == "meta-changed":
+            k = rk + "\x00meta:" + r["succ"].mkey
         r["succ_key"] = k
         succs[rk].add(k)
         if k not in nodes:
@@ -570,9 +604,11 @@ def search(env, root):
                     if op not in root_raises:  # a failure the root shows as well is not part of this counterexample
                         raises[k] = True
                 elif r.get("succ") is not None:
-                    k2 = nkey(r["succ"])
+                    k2 = k if r["res"] == "same" else nkey(r["succ"])  # "same" is a self-loop of this graph node
                     if r["res"] == "dump-changed" and k2 == k:
                         k2 = k + "\x00dump:" + str(r.get("d1"))[:2000]
+                    if r["res"] == "meta-changed":
+                        k2 = nkey(r["succ"]) + "\x00meta:" + r["succ"].mkey
                     succs[k].add(k2)
                     if k2 not in nodes:
                         nodes[k2] = r["succ"]
@@ -700,6 +736,41 @@ def _default_root_cause(path, va, vb, baselines):
     return kind(da) != kind(do) and {kind(va), kind(vb)} == {kind(da), kind(do)} and kind(da) in ("dict", "Namespace")
 
 
+def _declared_default_text_root_cause(env, root, text, path, va):
+    """The parser declares a default and the text edge changes the value at `path`: True when the very same text, read by
+    the same parser declared WITHOUT that default, gives the root's value back at that path - i.e. the presence of the
+    declared default (not the dump, not the type) is what keeps the text from being converted."""
+    if not env.has_default or text is None:
+        return False
+    spec2 = dict(env.spec, default=S.UNSET, dform="raw")
+    try:
+        o = _parse_text_with(S.build_parser(spec2, None, False), root, text)
+    except Exception:
+        return False
+    if o["kind"] != "ok" or not isinstance(o["value"], argparse.Namespace):
+        return False
+    ok, got = lookup(_strip(o["value"]), tuple(x for x in path if x != "{member}"))
+    return ok and ckey(got) == ckey(va)
+
+
+def _optional_null_root_cause(env, root, text, path, va, vb):
+    """Optional[T] argument whose non-None value comes back as None through the text: True when the same text, read by
+    the same parser declared with T alone, gives the value back - the text form of the value is what the loader reads
+    as null (an Enum member named `null`), so inside Optional the NoneType member claims it."""
+    spec = env.spec
+    if vb is not None or va is None or text is None or not (isinstance(spec["type"], list) and spec["type"][0] == "Optional"):
+        return False
+    spec2 = dict(spec, type=spec["type"][1], default=S.UNSET, dform="raw")
+    try:
+        o = _parse_text_with(S.build_parser(spec2, None, False), root, text)
+    except Exception:
+        return False
+    if o["kind"] != "ok" or not isinstance(o["value"], argparse.Namespace):
+        return False
+    ok, got = lookup(_strip(o["value"]), tuple(x for x in path if x != "{member}"))
+    return ok and ckey(got) == ckey(va)
+
+
 def _union_root_cause(env, root, fmt):
     """Flat parser whose argument is declared Union[...]: True when the value belongs to one member type M (a parser
     declared with M alone returns it unchanged) and round-trips through the `fmt` dump of that M-parser, i.e. the deviation
@@ -798,6 +869,13 @@ def judge(env, root, baselines):
             continue
         succ = r["succ"]
         cls = classify(info, r["succ_key"])
+        if res == "meta-changed":
+            for path, what, va, vb in all_diffs(root.cfg, succ.cfg) or [((), "unclassified", None, None)]:
+                mk = str(path[-1]) if path and str(path[-1]).startswith("__") else "-"
+                where = "top-level" if len(path) <= 1 else "nested"
+                add(op, f"metadata-changed:{where}:{mk}:{what}:{cls}",
+                    f"config {short(root.cfg)} -> {short(succ.cfg)} (metadata difference at {pstr(path)!r}: {short(va, 80)} -> {short(vb, 80)})")  # fmt: skip
+            continue
         if res == "dump-changed":
             add(op, f"dump-changed:{r['fmt']}:{cls}",
                 f"{cfgtxt} -> typed-equal config, but {r['fmt']} dump {r['d0']!r} became {r['d1']!r}")  # fmt: skip
@@ -816,12 +894,16 @@ def judge(env, root, baselines):
                 add(op, SIG_DEFAULT + ":" + cls, detail)
             elif path[:1] == ("x",) and union_cause(op):
                 add(op, SIG_UNION, detail)
+            elif op in ("yaml", "json") and _optional_null_root_cause(env, root, r.get("text"), path, va, vb):
+                add(op, SIG_OPTNULL, detail)
+            elif op in ("yaml", "json") and _declared_default_text_root_cause(env, root, r.get("text"), path, va):
+                add(op, SIG_DEFTEXT + ":" + cls, detail)
             else:
                 add(op, f"state-changed:{what}:{cls}", detail)
 
     for sig, g in groups.items():
         label = _edge_label(g["ops"], env)
-        if sig.startswith((SIG_DECIMAL, SIG_DEFAULT, SIG_UNION)):
+        if sig.startswith((SIG_DECIMAL, SIG_DEFAULT, SIG_UNION, SIG_DEFTEXT, SIG_OPTNULL)):
             devs.append((sig, f"[{label}] {g['detail']}"))
         else:
             devs.append((f"{label}:{sig}", g["detail"]))
@@ -897,11 +979,48 @@ def _baselines(env):
     return _strip(oa["value"]), (_strip(oo["value"]) if oo["kind"] == "ok" else None)
 
 
+def _baselines_args_only(env):
+    from mc.util import outcome
+
+    _obj, argv = S.EMPTY[env.spec["shape"]]
+    oa = outcome(env.mk().parse_args, list(argv))
+    env.parses += 1
+    return _strip(oa["value"]) if oa["kind"] == "ok" and isinstance(oa["value"], argparse.Namespace) else None
+
+
+META_KEYS = ("__path__", "__default_config__", "__orig__")
+
+
+def _meta_census(cfg, _top=True):
+    """(metadata at the top level?, metadata below it?) of a parse result."""
+    top = nested = False
+    if isinstance(cfg, argparse.Namespace):
+        items = list(vars(cfg).items())
+    elif isinstance(cfg, dict):
+        items = list(cfg.items())
+    elif isinstance(cfg, (list, tuple)):
+        items = [(None, x) for x in cfg]
+    else:
+        return False, False
+    for k, v in items:
+        if k in META_KEYS:
+            if _top:
+                top = True
+            else:
+                nested = True
+        else:
+            t, n = _meta_census(v, False)
+            nested = nested or t or n
+    return top, nested
+
+
 def _run_task(task, cwd):
     spec = task["spec"]
     out = {"spec": spec, "hashseed": task.get("hashseed"), "status": "ok", "inputs": 0, "accepted": 0, "rejected": 0, "not_expressible": 0, "escapes": [],
            "states": 0, "extra_states": 0, "singletons": 0, "transitions": 0, "parses": 0, "dumps": 0, "devs": [],
-           "nontrivial": 0, "channels": {}, "samples": [], "state_hashes": []}  # fmt: skip
+           "nontrivial": 0, "channels": {}, "samples": [], "state_hashes": [],
+           "states_with_nested_metadata": 0, "states_with_toplevel_metadata": 0, "ambient_specs": 0, "ambient_effective": 0,
+           "states_overriding_ambient": 0}  # fmt: skip
     env = Env(spec, cwd)
     env.transitions = env.dumps = 0
     if env.status != "ok":
@@ -916,6 +1035,17 @@ def _run_task(task, cwd):
         out["parses"] = env.parses
         return out
     base_key = ckey(baselines[0]) if baselines[0] is not None else None
+    if env.ambient:
+        # vacuity: the environment really is a source for this parser - without the variables the no-argument
+        # parse gives something else
+        out["ambient_specs"] = 1
+        saved = {k: os.environ.pop(k) for k in env.ambient}
+        try:
+            plain = _baselines_args_only(env)
+        finally:
+            os.environ.update(saved)
+        if base_key is not None and plain is not None and ckey(plain) != base_key:
+            out["ambient_effective"] = 1
     seen = {}
     for channel, value in task["inputs"]:
         out["inputs"] += 1
@@ -945,6 +1075,11 @@ def _run_task(task, cwd):
             out["singletons"] += 1 if cnt["singleton"] else 0
             if root.key != base_key:
                 out["nontrivial"] += 1
+                if env.ambient and out["ambient_effective"]:
+                    out["states_overriding_ambient"] += 1
+            top_meta, nested_meta = _meta_census(o["value"])
+            out["states_with_toplevel_metadata"] += 1 if top_meta else 0
+            out["states_with_nested_metadata"] += 1 if nested_meta else 0
             for sig, detail in devs:
                 out["devs"].append((sig, [channel, value], detail))
             if len(out["samples"]) < 2 and out["states"] in (2, 5):
@@ -981,7 +1116,8 @@ def run_case(case):
 def explore(ctx):
     tasks = S.parser_specs(ctx.tier)
     tot = {k: 0 for k in ("inputs", "accepted", "rejected", "not_expressible", "states", "extra_states", "singletons",
-                          "transitions", "parses", "dumps", "nontrivial")}  # fmt: skip
+                          "transitions", "parses", "dumps", "nontrivial", "states_with_nested_metadata",
+                          "states_with_toplevel_metadata", "ambient_specs", "ambient_effective", "states_overriding_ambient")}  # fmt: skip
     status, channels, shapes, types_accepting, all_types = {}, {}, {}, set(), set()
     escapes = []
     hashseed_tasks = {}
@@ -1044,7 +1180,9 @@ def explore(ctx):
             "constructors": ["Optional", "Union", "List", "Sequence", "DictStr", "DictInt", "Mapping", "OrderedDict", "Tuple2", "TupleVar", "Set"],
             "class_like": S.CLASSLIKE + S.DATACLASSES,
             "shapes": S.SHAPES,
-            "channels": S.CHANNELS + S.EMPTY_CHANNELS + S.FILE_CHANNELS + S.ENV_CHANNELS + ["argv-raw"],
+            "channels": S.CHANNELS + S.EMPTY_CHANNELS + S.FILE_CHANNELS + S.ENV_CHANNELS + ["argv-raw"] + S.NATIVE_CHANNELS + S.OWNFILE_CHANNELS,
+            "default_forms": ["raw", "typed (by the library)", "native (Python constructors)"],
+            "ambient_environment": "default_env=True parsers with the variable of the target argument and of a sibling set for the whole life of the spec: " + ", ".join(S.AMBIENT_SHAPES),
             "classification_depth": DEPTH,
             "type_depth": "G1 all leaves; G2 unary over all leaves, binary over core; G3 skeletons",
         },
@@ -1073,6 +1211,10 @@ def explore(ctx):
         return
     missing = sorted(all_types - types_accepting)
     ctx.require(not missing, f"every type of the grammar has an accepted value (without: {missing[:4]})")
-    want_ch = set(S.CHANNELS + S.EMPTY_CHANNELS + S.FILE_CHANNELS + S.ENV_CHANNELS + ["argv-raw"])
+    want_ch = set(S.CHANNELS + S.EMPTY_CHANNELS + S.FILE_CHANNELS + S.ENV_CHANNELS + ["argv-raw"] + S.NATIVE_CHANNELS + S.OWNFILE_CHANNELS)
+    ctx.require(tot["states_with_nested_metadata"] >= 100, "at least 100 states carry metadata below the top level (values loaded from their own file)")
+    ctx.require(tot["states_with_toplevel_metadata"] >= 100, "at least 100 states carry top-level metadata (default config files)")
+    ctx.require(tot["ambient_effective"] >= 0.8 * tot["ambient_specs"] > 0, "the ambient environment is a source for at least 80% of the parser specs that declare one")
+    ctx.require(tot["states_overriding_ambient"] >= 200, "at least 200 states in which an input overrides (or adds to) what the ambient environment supplies")
     ctx.require(want_ch <= set(channels), f"every channel yields accepted inputs (without: {sorted(want_ch - set(channels))})")
     ctx.require(set(S.SHAPES) <= set(shapes), f"every parser shape yields states (without: {sorted(set(S.SHAPES) - set(shapes))})")
